@@ -212,7 +212,8 @@ def run(prog: Program) -> Results:
         j = joins[0]
         left = j.left if isinstance(j, ast.BinOp) else j.func.value
         right = j.right if isinstance(j, ast.BinOp) else (j.args[0] if j.args else None)
-        okl = dotted(left) == "self.source_path.parent"
+        from sa.util import Aliases as _Al17
+        okl = dotted(_Al17(fn).expand(left)) == "self.source_path.parent"  # `importing_dir = self.source_path.parent` is looked through
         r3.ob(okl, {"join_base": norm(left)})
         if not okl:
             res.add("R-C17-3", ("NixPath.resolved_path", "join base"), rp.loc(j),
